@@ -1,6 +1,6 @@
 (* Props/C02.v -- channel frequency labels follow the band model and survive frequency slicing. *)
 From Coq Require Import ZArith QArith List.
-From PB Require Import Lib.PySlice Gen.GenConsts Model.Band Proofs.BandProofs.
+From PB Require Import Lib.PySlice Gen.GenConsts Model.Band Proofs.BandProofs Gen.GenBand Proofs.BandGen.
 Open Scope Z_scope.
 
 (* the _align constants in core.py are 0, 1/2, 1: a statement about the table GENERATED from the source *)
@@ -36,8 +36,34 @@ Theorem C02_model_meets_spec : forall b tol,
   (0 <= tol)%Q -> C02_ok tol (bobs_of_model b) = 0.
 Proof. exact band_meets_spec. Qed.
 
+(* tie to the source by translation (T4): the label formula, bandwidth, band edges and the whole arithmetic of _freq_slice (its two
+   assertions, the new centre frequency from the first and last retained labels, the alignment name it sets) are the terms GENERATED
+   from RadioSignal in core.py on this run *)
+Theorem C02_generated_label : forall b i, label b i = gen_label b i.
+Proof. exact label_generated. Qed.
+Theorem C02_generated_edges : forall b, bandwidth b = gen_bandwidth b /\ max_freq b = gen_max_freq b /\ min_freq b = gen_min_freq b.
+Proof. exact (fun b => conj (bandwidth_generated b) (conj (max_freq_generated b) (min_freq_generated b))). Qed.
+Theorem C02_generated_slice : forall (b : band) (a c st : option Z),
+  freq_slice b a c st =
+  match st with
+  | Some 0 => BErr 3
+  | _ =>
+    if (match st with None => 1 | Some s => s end) <? 0 then BErr 2 else
+    match slice_indices a c st (nchan b) with
+    | None => BErr 2
+    | Some (lo, hi, s) =>
+      if negb (gen_fs_guard1 lo hi s) then BErr 2
+      else if negb (gen_fs_guard2 lo hi s) then BErr 2
+      else BOk (mk_band (gen_fs_center b lo hi s) (bw b) (hi - lo) 1) lo
+    end
+  end.
+Proof. exact freq_slice_generated. Qed.
+Theorem C02_generated_align : align_name 1 = gen_fs_align.
+Proof. exact fs_align_generated. Qed.
+
 Print Assumptions C02_align_constants.
 Print Assumptions C02_in_band.
 Print Assumptions C02_slice.
 Print Assumptions C02_nested.
 Print Assumptions C02_model_meets_spec.
+Print Assumptions C02_generated_slice.
